@@ -216,9 +216,15 @@ pub fn gen_tri_xy(rng: &mut Rng) -> ([(f32, f32); 3], &'static str) {
         }
         12 => {
             tag = "wide";
-            // long scanlines (up to 96 px) with few rows
+            // long scanlines (up to 96 px, one in four up to 300 px) with few rows, or many rows (up to 300) of
+            // short scanlines: chunked inner loops and narrow row / column counters show only there
+            let (ex, ey) = match rng.below(8) {
+                0 | 1 => (300.0, 6.0),
+                2 => (6.0, 300.0),
+                _ => (96.0, 6.0),
+            };
             for q in p.iter_mut() {
-                *q = (rng.f32_in(0.0, 96.0), rng.f32_in(0.0, 6.0));
+                *q = (rng.f32_in(0.0, ex), rng.f32_in(0.0, ey));
             }
         }
         13 => {
